@@ -9,8 +9,7 @@
 //!       value, and reading into the wrapper types (`Commented<Val>`, `FlowSeq<Val>`, ...) gives the
 //!       same tree.                                                                     (wrappers)
 //! Strings under an explicit fold wrapper are compared modulo one trailing line break; what the
-//! documentation declares lossy (folding of interior line breaks, `SpaceAfter` around `LitStr`) is
-//! counted as unspecified. Cases whose *bare* form already fails the C13 oracle give no verdict
+//! documentation declares lossy (folding of interior line breaks) is counted as unspecified. Cases whose *bare* form already fails the C13 oracle give no verdict
 //! here (C13 reports them).
 
 mod deco;
@@ -52,6 +51,17 @@ fn comment_atoms() -> Vec<(&'static str, String)> {
         ("ls", "\u{2028}".into()),
         ("ps", "\u{2029}".into()),
         ("tab", "\t".into()),
+        ("nul", "\0".into()),
+        ("esc", "\u{1b}[31m".into()),
+        ("bel", "\u{7}".into()),
+        ("bs", "\u{8}".into()),
+        ("vt", "\u{b}".into()),
+        ("ff", "\u{c}".into()),
+        ("del", "\u{7f}".into()),
+        ("c1-pad", "\u{80}".into()),
+        ("c1-csi", "\u{9b}".into()),
+        ("c1-apc", "\u{9f}".into()),
+        ("bom", "\u{feff}".into()),
         ("spaces", "  a b  ".into()),
         ("key-value", "y: 1".into()),
         ("flow-map", "{a: 1}".into()),
@@ -232,18 +242,6 @@ fn tolerances(c: &Case, unspecified: &mut Vec<&'static str>) -> HashMap<String, 
                 }
             }
         }
-        // SpaceAfter whose last emitted leaf is an explicit literal string (documented caveat)
-        if ws.iter().any(|w| matches!(w, Wrap::SpaceAfter)) {
-            let last = deco::last_leaf(&c.ty, &c.v, path);
-            let lit_there = c.decs.0.get(&last).map(|ws| ws.iter().any(|w| w.is_lit())).unwrap_or(false);
-            if lit_there
-                && let Some(s) = sites.iter().find(|s| s.path == last)
-                && let Some(text) = &s.text
-            {
-                tol.entry(text.clone()).or_insert(Tol::TrailingNl);
-                unspecified.push("space-after-around-literal-wrapper(documented-caveat)");
-            }
-        }
     }
     tol
 }
@@ -335,6 +333,13 @@ fn evaluate(c: &Case) -> Eval {
         return ev(Outcome::NoVerdict(format!("bare/{u}")), None, unspecified);
     }
     if let Some(st) = &rt.fail {
+        // R1 in its strongest form: with the default options the bare value round-trips, with these it does not
+        if c.o != Opt::default() {
+            let rt0 = tygen::roundtrip(&c.ty, &c.v, &Opt::default());
+            if rt0.fail.is_none() && rt0.unspecified.is_none() {
+                return ev(Outcome::Violated("options-break-the-bare-document", format!("{}: {}", st.kind(), st.detail())), rt.text.clone(), unspecified);
+            }
+        }
         return ev(Outcome::NoVerdict(format!("bare-form-fails-C13-oracle/{}", st.kind())), None, unspecified);
     }
     let bare_text = usable(rt.text.as_deref().unwrap_or(""));
@@ -588,6 +593,21 @@ fn signature(min: &Case, effect: &str) -> String {
             return "C20:comment:cr-injects-content".into();
         }
     }
+    // another control character (NUL, ESC, BEL, BS, VT, FF, DEL, C1, U+FEFF) in a comment: without it the case holds
+    let is_ctl = |ch: char| (ch.is_control() && !matches!(ch, '\n' | '\r' | '\t')) || ch == '\u{feff}';
+    if min.decs.0.values().flatten().any(|w| matches!(w, Wrap::Commented(c) if c.chars().any(is_ctl))) {
+        let mut c2 = min.clone();
+        for ws in c2.decs.0.values_mut() {
+            for w in ws.iter_mut() {
+                if let Wrap::Commented(c) = w {
+                    *c = c.chars().map(|ch| if is_ctl(ch) { ' ' } else { ch }).collect();
+                }
+            }
+        }
+        if !still_violated(&c2) {
+            return "C20:comment:control-char-alters-document".into();
+        }
+    }
     // flow wrapper around a collection that holds enum variants with a payload
     if names.iter().all(|n| *n == "FlowSeq" || *n == "FlowMap") && !names.is_empty() {
         let variant_inside =
@@ -703,8 +723,20 @@ fn judge(run: &Run, c: &Case, part: &str) {
         Outcome::Violated(effect, detail) => {
             let (sig, min) = if effect == "panic" {
                 (format!("C20:panic:{}", vcore::obs::panic_site(&detail)), c.clone())
-            } else if effect == "options-change-untyped-data" {
-                (format!("C20:options-change-untyped-data:{}", tygen::opt_class(&c.o).split(',').next().unwrap_or("")), c.clone())
+            } else if effect == "options-change-untyped-data" || effect == "options-break-the-bare-document" {
+                // reduce the option vector to what is needed, keep the value
+                let mut m = Case { decs: Decs::default(), ..c.clone() };
+                loop {
+                    let next = m.o.toward_default().into_iter().find(|o2| {
+                        let c2 = Case { o: *o2, ..m.clone() };
+                        matches!(evaluate(&c2).outcome, Outcome::Violated(e, _) if e == effect)
+                    });
+                    match next {
+                        Some(o2) => m.o = o2,
+                        None => break,
+                    }
+                }
+                (format!("C20:{effect}:{}", tygen::opt_class(&m.o).split(',').next().unwrap_or("")), m)
             } else {
                 let min = shrink(c);
                 let eff2 = match evaluate(&min).outcome {
@@ -981,6 +1013,104 @@ fn main() {
         flush_local(&run);
     });
 
+    // ---- part A2: control characters in comments, at the start / middle / end of the text, on the
+    // first / middle / last sibling of a sequence, a struct and a map (what follows the comment matters)
+    {
+        let controls: Vec<String> = {
+            let mut v: Vec<String> = ["\0", "\u{1b}", "\u{7}", "\u{8}", "\u{b}", "\u{c}", "\u{7f}", "\u{80}", "\u{85}", "\u{9b}", "\u{9f}", "\u{feff}", "\r", "\u{2028}"]
+                .iter()
+                .map(|s| s.to_string())
+                .collect();
+            for c in 0x80u32..=0x9f {
+                v.push(char::from_u32(c).unwrap().to_string());
+            }
+            v.push("\0\u{1b}[0m\u{9b}".into());
+            v.push("\u{feff}\u{7f}\0".into());
+            v
+        };
+        let hosts: Vec<(Ty, TVal)> = vec![
+            (Ty::seq(Ty::I32), TVal::Seq(vec![TVal::I(5), TVal::I(6), TVal::I(7)])),
+            (Ty::strukt(1, vec![Ty::I32, Ty::Str, Ty::Bool], false), TVal::Struct(vec![TVal::I(5), TVal::Str("six".into()), TVal::Bool(true)])),
+            (Ty::map(Ty::Str, Ty::I32), TVal::Map(vec![(TVal::Str("a".into()), TVal::I(5)), (TVal::Str("b".into()), TVal::I(6)), (TVal::Str("c".into()), TVal::I(7))])),
+            (Ty::seq(Ty::seq(Ty::I32)), TVal::Seq(vec![TVal::Seq(vec![TVal::I(5), TVal::I(6)]), TVal::Seq(vec![TVal::I(7)])])),
+            (Ty::I32, TVal::I(5)),
+        ];
+        let a2_opts = [Opt::default(), Opt { indent: 4, quote_all: true, ..Opt::default() }];
+        par_range(controls.len(), |i| {
+            let ctl = &controls[i];
+            for (t, v) in &hosts {
+                let leaf_sites: Vec<deco::Site> = deco::sites(t, v).into_iter().filter(|s| !s.in_key && deco::child_steps(t, v).is_empty() == s.path.is_empty() && !matches!(s.kind, "seq" | "struct" | "map")).collect();
+                for text in [format!("{ctl}tail"), format!("head{ctl}tail"), format!("head{ctl}"), ctl.clone()] {
+                    // one commented sibling at a time, and all siblings at once
+                    let mut plans: Vec<Vec<&deco::Site>> = leaf_sites.iter().map(|s| vec![s]).collect();
+                    plans.push(leaf_sites.iter().collect());
+                    for plan in plans {
+                        for o in &a2_opts {
+                            let mut decs = Decs::default();
+                            for s in &plan {
+                                decs.0.insert(s.path.clone(), vec![Wrap::Commented(text.clone())]);
+                            }
+                            let c = Case { ty: t.clone(), v: v.clone(), decs, o: *o };
+                            judge(&run, &c, "comment-controls");
+                            lcount("comment_controls/cases", 1);
+                        }
+                    }
+                }
+            }
+            flush_local(&run);
+        });
+    }
+
+    // ---- part A3: SpaceAfter (alone and around the block-string wrappers) on strings that end in
+    // kept line breaks, in every sibling position of small hosts
+    {
+        let texts = ["\n\n", "\n\n\n", "\n", "", "x\n\n", "x\n\n\n", " lead\nx\n\n", "a\nb\n", "a\n\nb\n\n"];
+        let stacks: Vec<Vec<Wrap>> = vec![
+            vec![Wrap::SpaceAfter],
+            vec![Wrap::SpaceAfter, Wrap::Lit],
+            vec![Wrap::SpaceAfter, Wrap::LitOwned],
+            vec![Wrap::SpaceAfter, Wrap::Fold],
+            vec![Wrap::Commented("note".into()), Wrap::SpaceAfter, Wrap::Lit],
+            vec![Wrap::SpaceAfter, Wrap::Commented("note".into()), Wrap::LitOwned],
+        ];
+        let a3_opts = [Opt::default(), Opt { indent: 4, ..Opt::default() }, Opt { indent: 1, compact_list_indent: true, ..Opt::default() }, Opt { prefer_block_scalars: false, ..Opt::default() }];
+        par_range(texts.len(), |i| {
+            let t0 = TVal::Str(texts[i].to_string());
+            let other = |n: &str| TVal::Str(n.to_string());
+            let mut hosts: Vec<(Ty, TVal, Path)> = vec![(Ty::Str, t0.clone(), vec![])];
+            for pos in 0..3usize {
+                let mut xs = vec![other("first"), other("mid"), other("last")];
+                xs[pos] = t0.clone();
+                hosts.push((Ty::seq(Ty::Str), TVal::Seq(xs.clone()), vec![pos as u16]));
+                hosts.push((Ty::strukt(1, vec![Ty::Str, Ty::Str, Ty::Str], false), TVal::Struct(xs.clone()), vec![pos as u16]));
+                let ps: Vec<(TVal, TVal)> = xs.iter().enumerate().map(|(j, x)| (TVal::Str(format!("k{j}")), x.clone())).collect();
+                hosts.push((Ty::map(Ty::Str, Ty::Str), TVal::Map(ps), vec![2 * pos as u16 + 1]));
+                hosts.push((Ty::seq(Ty::seq(Ty::Str)), TVal::Seq(vec![TVal::Seq(xs.clone()), TVal::Seq(vec![other("z")])]), vec![0, pos as u16]));
+                hosts.push((
+                    Ty::enumeration(1, 0, vec![vcore::ty::VariantTy::Unit, vcore::ty::VariantTy::Newtype(Ty::seq(Ty::Str))]),
+                    TVal::variant(1, TVal::Seq(xs)),
+                    vec![0, pos as u16],
+                ));
+            }
+            for (t, v, path) in &hosts {
+                for st in &stacks {
+                    for o in &a3_opts {
+                        let mut decs = Decs::default();
+                        decs.0.insert(path.clone(), st.clone());
+                        let mut c = Case { ty: t.clone(), v: v.clone(), decs, o: *o };
+                        make_tolerances_unambiguous(&mut c);
+                        if c.decs.count() == 0 {
+                            continue;
+                        }
+                        judge(&run, &c, "space-after-block-strings");
+                        lcount("space_after_block_strings/cases", 1);
+                    }
+                }
+            }
+            flush_local(&run);
+        });
+    }
+
     // ---- part B (options only): R1 on every small tree under all option vectors of C13's cube
     {
         let small2: Vec<(Ty, TVal)> = if only_derived { Vec::new() } else { ty::small_pairs(2, &g, 8) };
@@ -1054,7 +1184,7 @@ fn main() {
         "systematic part only: every (type, value) of the C13 shape grammar with <= 3 type nodes (value lists strided) x every node position (incl. map keys) x every applicable single wrapper stack from a fixed list (SpaceAfter, Commented with 5 comment texts incl. CR/LF/U+2028/U+0085, FlowSeq/FlowMap alone and under Commented/SpaceAfter, the four block-string wrappers alone and under SpaceAfter/Commented) x 5 option vectors; options-only relation on all pairs with <= 2 type nodes x 2^6 booleans x indent {2,1,4}",
     )
     .assume("the bare value under the same options must pass the C13 oracle, otherwise no verdict here (C13 reports it)")
-    .assume("documented lossy behaviour is unspecified: folded interior line breaks, clip-chomping of several trailing breaks under FoldStr/FoldString, SpaceAfter around LitStr/LitString")
+    .assume("documented lossy behaviour is unspecified: folded interior line breaks, clip-chomping of several trailing breaks under FoldStr/FoldString (SpaceAfter around LitStr/LitString is judged strictly: the emitter suppresses the blank line after a keep-chomped scalar)")
     .assume("a complex key inside a flow collection is rejected by the serializer (`non-scalar key`): no verdict")
     .assume("a fold wrapper that really folds a string inside a `? ` key changes the key as documented (and may make keys equal): no verdict")
     .min_nontrivial(tier.pick(100_000, 1_000_000));
